@@ -7,9 +7,11 @@ Correspondence: Model/Regress.v vs tensorly/regression/{cp_regression,tucker_reg
   * the whole of CP_PLSR.fit (inner power iteration, deflations, coefficients) with pinned pass counts and run to
     convergence with a margin-checked tolerance, the answers of initialize_cp and lstsq recorded from the
     implementation, in 70-bit fixed point (1e-8)
-  * the fit loop of CPRegressor (concrete ridge blocks, T.solve answers certified) and TuckerRegressor (played back)
+  * the fit loop of CPRegressor and TuckerRegressor (concrete ridge blocks, T.solve answers certified)
     on a tape of iterates: which iterate a run with a given (n_iter_max, tol) stores (1e-8)
-Predicates (implementation only): the statements of the property, see reg_predicates / plsr_predicates.
+Predicates (implementation only): the statements of the property, see reg_predicates / plsr_predicates /
+plsr_sequences (multi-step sequences on ONE array object, compared with results from pristine copies; their last
+results are the expected values of the Coq-evaluated transform / predict cases).
 A per-call timeout (loaded machine) skips the case; a vacuity guard fails the check when most constructed
 well-posed problems do not give a finite fit."""
 import itertools, random
@@ -186,17 +188,24 @@ def reg_problems(tier, rng):
         X = gauss(rng, (n,) + sx)
         y = gauss(rng, (n,) + so) + 0.5
         Xn = dyadic(rng, (rng.randint(1, 4),) + sx)
-        probs.append(dict(kind=kind, X=X, y=y, Xn=Xn, rank=rank, reg=reg, seed=seed, n_iter=n_iter))
+        prob = dict(kind=kind, X=X, y=y, Xn=Xn, rank=rank, reg=reg, seed=seed, n_iter=n_iter)
+        if k % 4 == 3:
+            prob["tol"] = 1e-14          # never converges: n_iter_max is exhausted
+        probs.append(prob)
     return probs
+
+
+def tolkw(p):
+    return {"tol": float(p["tol"])} if "tol" in p else {}
 
 
 def fit_reg(p):
     from tensorly.regression.cp_regression import CPRegressor
     from tensorly.regression.tucker_regression import TuckerRegressor
     if p["kind"] == "cp":
-        r = CPRegressor(weight_rank=p["rank"], reg_W=p["reg"], n_iter_max=p["n_iter"], random_state=p["seed"], verbose=0)
+        r = CPRegressor(weight_rank=p["rank"], reg_W=p["reg"], n_iter_max=p["n_iter"], random_state=p["seed"], verbose=0, **tolkw(p))
     else:
-        r = TuckerRegressor(weight_ranks=list(p["rank"]), reg_W=p["reg"], n_iter_max=p["n_iter"], random_state=p["seed"], verbose=0)
+        r = TuckerRegressor(weight_ranks=list(p["rank"]), reg_W=p["reg"], n_iter_max=p["n_iter"], random_state=p["seed"], verbose=0, **tolkw(p))
     return r.fit(p["X"].copy(), p["y"].copy())
 
 
@@ -218,10 +227,14 @@ def reg_predicates(p, r):
     if v.shape != (W.size,) or not close(v, W.reshape(-1), 1e-12):
         bad.append(("C19_vec_is_vectorisation", f"vec_W_ != tensor_to_vec(weight_tensor_) (shape {v.shape})"))
     for nm, Xq in (("train", p["X"]), ("new", p["Xn"])):
-        st, pr = call(r.predict, Xq.copy())
+        obj = Xq.copy()                      # ONE array object handed to predict twice; references from the pristine Xq
+        st, pr = call(r.predict, obj)
         if st != "ok":
             bad.append(("C19_predict_is_contraction", f"predict({nm} X) raised after a successful fit: {pr}"))
             continue
+        st2, pr2 = call(r.predict, obj)
+        if st2 != "ok" or not close(pr2, contract(Xq, W)):
+            bad.append(("C19_predict_is_contraction", f"second predict({nm} X) on the same array object != tensordot(X, weight_tensor_)"))
         ref = contract(Xq, W)
         if not close(pr, ref):
             bad.append(("C19_predict_is_contraction", f"predict({nm} X) != tensordot(X, weight_tensor_): shapes {np.shape(pr)} / {ref.shape}"))
@@ -237,7 +250,9 @@ def reg_cases(p, r, cid):
     W = np.asarray(r.weight_tensor_, dtype=np.float64)
     v = np.asarray(r.vec_W_, dtype=np.float64)
     Xn = p["Xn"]
-    pr = call(r.predict, Xn.copy())
+    obj = Xn.copy()
+    call(r.predict, obj)
+    pr = call(r.predict, obj)               # the model (given the pristine Xn) is compared with the SECOND call on one object
     if p["kind"] == "cp":
         weights, factors = r.cp_weight_
         fl = lst(qt(f) for f in factors)
@@ -357,24 +372,83 @@ def plsr_predicates(p, r):
     return bad, comparable
 
 
+def plsr_sequences(p, r):
+    """multi-step sequences on ONE array object (the statements hold for every call, so a call must not depend on what
+    earlier calls did to the caller's array); every result is compared with the one obtained from a pristine copy.
+    -> (predicate failures, outputs of the LAST calls, used as expected values of the Coq cases)"""
+    bad, out = [], {}
+    X, Y, Xn = p["X"], p["y"], p["Xn"]
+    T, U = np.asarray(r.X_factors[0]), np.asarray(r.Y_factors[0])
+    ok = lambda o: o[0] == "ok"
+    ref_pred_train = call(r.predict, X.copy()); ref_pred_new = call(r.predict, Xn.copy()); ref_tr_new = call(r.transform, Xn.copy())
+    if not (ok(ref_pred_train) and ok(ref_pred_new) and ok(ref_tr_new)):
+        return bad, out          # reported by the single-call predicates
+    # 1. transform(X) twice, then transform(X, Y), then predict(X), all on the same objects
+    A, Yo = X.copy(), np.array(Y, copy=True)
+    t1 = call(r.transform, A); t2 = call(r.transform, A)
+    if not (ok(t1) and close(t1[1], T, 1e-8)) or not (ok(t2) and close(t2[1], T, 1e-8)):
+        bad.append(("C19_plsr_transform_train", "transform(X_train) called twice on the same array object does not return the fitted scores both times"))
+    txy = call(r.transform, A, Yo)
+    if ok(txy) and isinstance(txy[1], tuple) and len(txy[1]) == 2:
+        if not close(txy[1][0], T, 1e-8) or not close(txy[1][1], U, 1e-8):
+            bad.append(("C19_plsr_transform_train", "transform(X_train, Y_train) after two transform(X_train) calls on the same array object != fitted scores"))
+        out["ty"] = txy[1][1]
+    pa = call(r.predict, A)
+    if not (ok(pa) and close(pa[1], ref_pred_train[1], 1e-8)):
+        bad.append(("C19_plsr_predict", "predict(X) after transform(X) / transform(X, Y) on the same array object != predict of a pristine copy"))
+    if ok(t2):
+        out["t_train"] = t2[1]
+    if ok(pa):
+        out["p_train"] = pa[1]
+    # 2. new data: transform, predict, transform on one object
+    B = Xn.copy()
+    b1 = call(r.transform, B); pb = call(r.predict, B); b2 = call(r.transform, B)
+    if not (ok(b1) and ok(b2) and close(b1[1], ref_tr_new[1], 1e-8) and close(b2[1], ref_tr_new[1], 1e-8)):
+        bad.append(("C19_plsr_transform_train", "transform(X_new) repeated on the same array object (with a predict in between) changes its result"))
+    if not (ok(pb) and close(pb[1], ref_pred_new[1], 1e-8)):
+        bad.append(("C19_plsr_predict", "predict(X_new) after transform(X_new) on the same array object != predict of a pristine copy"))
+    if ok(b2):
+        out["t_new"] = b2[1]
+    if ok(pb):
+        out["p_new"] = pb[1]
+    # 3. fit_transform(X, Y), then predict(X) and transform(X) on the same objects
+    from tensorly.regression.cp_plsr import CP_PLSR
+    r2 = CP_PLSR(n_components=p["ncomp"], tol=p.get("tol", 1e-9), n_iter_max=p.get("n_iter", 100), random_state=0)
+    A2, Y2o = X.copy(), np.array(Y, copy=True)
+    ft = call(r2.fit_transform, A2, Y2o)
+    if ok(ft) and isinstance(ft[1], tuple) and len(ft[1]) == 2:
+        if not close(ft[1][0], T, 1e-8) or not close(ft[1][1], U, 1e-8):
+            bad.append(("C19_plsr_transform_train", "fit_transform(X, Y) != fitted scores of fit(X, Y)"))
+        p2 = call(r2.predict, A2); t3 = call(r2.transform, A2)
+        if not (ok(p2) and close(p2[1], ref_pred_train[1], 1e-8)):
+            bad.append(("C19_plsr_predict", "predict(X) after fit_transform(X, Y) on the same array object != predict of a pristine copy"))
+        if not (ok(t3) and close(t3[1], T, 1e-8)):
+            bad.append(("C19_plsr_transform_train", "transform(X) after fit_transform(X, Y) and predict(X) on the same array object != fitted scores"))
+    return bad, out
+
+
 def plsr_cases(p, r):
+    """the expected values are the results of the LAST calls of the multi-step sequences on one array object (plsr_sequences);
+    the model is given the pristine data"""
     cs = []
     X, Xn = p["X"], p["Xn"]
     ncomp = p["ncomp"]
+    seq = p.get("_seq", {})
     loads = lst(lst(qt(np.asarray(f)[:, c]) for f in r.X_factors[1:]) for c in range(ncomp))
     xm, ym = np.asarray(r.X_mean_), np.asarray(r.Y_mean_)
-    for Xq in (X, Xn):
-        st, tr = call(r.transform, Xq.copy())
+    for Xq, key in ((X, "t_train"), (Xn, "t_new")):
+        st, tr = ("ok", seq[key]) if key in seq else call(r.transform, Xq.copy())
         if st == "ok":
             cs.append(f"KPlsrTransform {qt(xm)} {loads} {qt(Xq)} {qt(tr)}")
-    st, pr = call(r.predict, Xn.copy())
-    if st == "ok":
-        cs.append(f"KPlsrPredict {qt(xm)} {qt(ym)} {loads} {qt(r.coef_)} {qt(r.Y_factors[1])} {qt(Xn)} {qt(pr)}")
+    for Xq, key in ((Xn, "p_new"), (X, "p_train")):
+        st, pr = ("ok", seq[key]) if key in seq else call(r.predict, Xq.copy())
+        if st == "ok":
+            cs.append(f"KPlsrPredict {qt(xm)} {qt(ym)} {loads} {qt(r.coef_)} {qt(r.Y_factors[1])} {qt(Xq)} {qt(pr)}")
     cs.append(f"KMean {qt(X)} {qt(xm)}")
     # the Y branch of transform on the training data
     Y2 = np.asarray(p["y"], dtype=np.float64)
     Y2 = Y2.reshape(-1, 1) if Y2.ndim == 1 else Y2
-    st, trxy = call(r.transform, X.copy(), Y2.copy())
+    st, trxy = ("ok", (None, seq["ty"])) if "ty" in seq else call(r.transform, X.copy(), Y2.copy())
     if st == "ok" and isinstance(trxy, tuple) and len(trxy) == 2:
         coef = np.asarray(r.coef_, dtype=np.float64)
         yl = np.asarray(r.Y_factors[1], dtype=np.float64)
@@ -517,6 +591,8 @@ def loop_problems(tier, rng):
     for k in range(nfit):
         kind = "cp_loop" if k % 3 != 2 else "tucker_loop"
         order = rng.choice([2, 2, 3])
+        if kind == "tucker_loop" and (k // 3) % 2 == 0:
+            order = 3          # the blocks of the third mode see a genuinely two-dimensional rest of the core
         sx = tuple(rng.randint(2, 3) for _ in range(order))
         n = rng.randint(3, 6)
         if kind == "cp_loop":
@@ -525,6 +601,9 @@ def loop_problems(tier, rng):
         else:
             so = ()
             rank = [rng.randint(1, 2) for _ in sx]
+            if order == 3:
+                rank = [2, 2, rng.randint(1, 2)]
+                rng.shuffle(rank)
         reg = rng.choice([0.05, 0.5, 1, 3.0])
         X = dyadic(rng, (n,) + sx, denom=16, lo=-48, hi=48)
         y = dyadic(rng, (n,) + so, denom=16, lo=-48, hi=48)
@@ -576,10 +655,13 @@ def loop_case(p):
             if ev[j] > 0 and before > 2 * ev[j]:
                 tol = float(np.sqrt(before * ev[j]))
                 break
+    p["chosen"] = {"n_iter_max": N, "tol": tol}
     st, r = call(fit_loop, p, N, tol)
     if st != "ok":
         return "fit-raised", None
     eW = np.asarray(r.weight_tensor_, dtype=np.float64)
+    # the statements of the property on this run too (a run that stops by convergence is rare among the random fits)
+    p["loop_bad"] = reg_predicates(dict(kind="cp" if cp else "tucker", X=p["X"], Xn=p["X"][:2]), r)
     qtol = C.q(max(min(tol, 1e30), -1.0))
     if cp:
         tape = lst(lst(qt(f) for f in b[1]) for b in its)
@@ -589,14 +671,13 @@ def loop_case(p):
                 f"{qt(eW)} {lst(qt(f) for f in r.cp_weight_[1])}")
     else:
         tape = lst(f"({qt(b[0])}, {lst(qt(f) for f in b[1])})" for b in its)
-        case = f"KTkLoop {C.nat(N)} {qtol} {tape} {qt(eW)}"
-    p["chosen"] = {"n_iter_max": N, "tol": tol}
+        case = f"KTkLoop {C.nat(N)} {qtol} {C.q(float(p['reg']))} {qt(p['X'])} {qt(p['y'])} {tape} {qt(eW)}"
     return "ok", case
 
 
 # ----------------------------------------------------------------------------- driver
 def describe(p):
-    d = {k: v for k, v in p.items() if k not in ("X", "y", "Xn", "c", "d")}
+    d = {k: v for k, v in p.items() if k not in ("X", "y", "Xn", "c", "d", "_seq", "loop_bad")}
     d["X"] = p["X"]; d["y"] = p["y"]
     if "Xn" in p:
         d["Xn"] = p["Xn"]
@@ -623,7 +704,8 @@ def eval_problem(p):
     if not plsr_wellposed(r):
         return "ill-conditioned", [], [], True
     bad, comparable = plsr_predicates(p, r)
-    return "ok", bad, plsr_cases(p, r), comparable
+    bad2, p["_seq"] = plsr_sequences(p, r)
+    return "ok", bad + bad2, plsr_cases(p, r), comparable
 
 
 ENTRY = {"cp": "tensorly.regression.CPRegressor", "tucker": "tensorly.regression.TuckerRegressor", "plsr": "tensorly.regression.CP_PLSR"}
@@ -688,6 +770,11 @@ def run(chk):
         except Skip:
             status, c = "timeout-skipped", None
         chk.hist("fit_status_" + p["kind"], status)
+        for pred, msg in p.get("loop_bad", []):
+            q = {k: v for k, v in p.items() if k != "loop_bad"}
+            q.update(kind="cp" if p["kind"] == "cp_loop" else "tucker", Xn=p["X"][:2], loop=True,
+                     n_iter=p["chosen"]["n_iter_max"] if "chosen" in p else p["n_iter"], tol=p.get("chosen", {}).get("tol", -1.0))
+            chk.finding(ENTRY[q["kind"]], describe(q), msg + " (run stopping by its convergence test)" , pred)
         if c is None:
             skipped += 1
             continue
@@ -745,7 +832,7 @@ def run(chk):
                        "initialize_cp / lstsq answers recorded from the implementation -> per-component loadings, X/Y scores, Y loadings of the model (fixed point) vs implementation (1e-8); "
                        "the same run to convergence (n_iter_max=100) with a tolerance placed by a pilot in a gap of the observed score movements, compared where the model's stopping decisions have a 1.25 margin; "
                        "the regressors' fit loop: tape of iterates from runs with n_iter_max=1..6 (tol=-1), then a run that never stops / stops from the third pass / stops at a later pass with a margin-chosen tol: "
-                       "model loop (CP: concrete ridge blocks, every T.solve answer from pass 2 on certified by A x = B at 1e-7 against the model's design matrices; Tucker: passes played back) must store the implementation's weight_tensor_ / factors (1e-8); "
+                       "model loop (concrete ridge blocks of both regressors, incl. the Tucker core block; every T.solve answer from pass 2 on certified by A x = B at 1e-7 against the model's design matrices) must store the implementation's weight_tensor_ / factors (1e-8); "
                        "a case is non-trivial if the fit succeeded with finite weights; distinct key = (regressor, X shape, y shape, rank)")
     for b in broken:
         chk.broken.append({"what": "correspondence corr:C19 shard not evaluated", "detail": b})
@@ -757,7 +844,7 @@ def run(chk):
                        "size-0 modes are outside the model"]
     chk.trusted = ["cp_to_tensor / tucker_to_tensor / multi_mode_dot / outer are modelled by their entrywise meaning (their code-level models are C02/C03); tied to the code by this run's Q cases",
                    "CP_PLSR: the SVD inside initialize_cp (a function of Z), lstsq (modelled as a function of the normal-equation data T'T, T'u: true of the minimum-norm solution in exact arithmetic) and sqrt are black boxes of the model; their answers are recorded from the implementation for execution",
-                   "T.solve inside the CP ridge blocks is a black box whose recorded answers are certified (A x = B); the first pass of CPRegressor.fit (random initial factors) and the Tucker block updates are played back from the tape without certificate",
+                   "T.solve inside the CP ridge blocks is a black box whose recorded answers are certified (A x = B); the first pass of both fits (random initial factors, not observable) is played back from the tape without certificate",
                    "the code-level models of cp_to_tensor / tucker_to_tensor linked by C19_*_code_level are those of property C03 (Model/Factorized.v, tied to the code by C03's correspondence)",
                    "fixed-point execution (70 fractional bits) of the CP_PLSR model: rounding 1e-21 per operation, compared at 1e-9 / 1e-8"]
     return chk.finish({})
